@@ -3,17 +3,25 @@
 (executable predicate on observed renderings; independent of Model/)
 
 One case = a string rendered three times on a blank canvas of `wib*8 × H` stored bits, text wrap off:
-`A` at cursor `(cx,cy)` with size `(h,v)`, `B` at cursor `(cx+dx, cy+dy)` with size `(h,v)`, `C` at `(cx,cy)` with size `(1,1)`;
-`sw` = reported string width at size `(h,v)`, `lh` = reported line height.
+`A` at cursor `(cx,cy)` with size `(h,v)`, `B` at cursor `(cx+dx, cy+dy)` with size `(h,v)`, `C` at `(cx,cy)` with size `(1,1)`.
 
-* `box`         every lit pixel of `A` lies in `[cx, cx+sw+h) × [cy, cy+lh)`
-* `translate`   `B` is `A` moved by `(dx,dy)`
-* `scale`       `A` is `C` with every pixel enlarged to `h × v` about the cursor
+**Lines.**  Byte 10 is the renderer's new-line command (cursor to column 0 of the next line), not ink, so "the box that
+starts at the cursor and spans the reported string width plus one size step and the reported line height" is read per
+line: the string is cut at its line feeds into segments; segment `i` is rendered on line `i`, whose cursor is
+`(cx, cy)` for `i = 0` and `(0, cy + i·lh)` for `i > 0`.  `segw` = the string widths the implementation reports for the
+segments at size `(h,v)`, `segw1` at size `(1,1)`; `lh`, `lh1` = the reported line heights.  A string without line feed is
+the single segment `segw = [StrWidth(str)]`, and the clauses below are then literally the property's:
+
+* `box`         every lit pixel of `A` lies in the box of its line: `[x_i, x_i + segw_i + h) × [cy + i·lh, cy + (i+1)·lh)`;
+                the same for `C` with `segw1`, `1`, `lh1`
+* `translate`   `B` is `A` moved by `(dx,dy)` (lines after the first: by `(0,dy)` — their cursor column is 0 by command)
+* `scale`       `A` is `C` with every pixel enlarged to `h × v` about the cursor of its line
 -/
 namespace RawPanelVerif.Spec.Text
 
 structure Case where
-  wib : Nat
+  W : Nat          -- canvas width in pixels
+  wib : Nat        -- row stride in bytes (`wib*8 ≥ W` stored bits per row)
   H : Nat
   cx : Int
   cy : Int
@@ -21,10 +29,12 @@ structure Case where
   dy : Int
   h : Int
   v : Int
-  sw : Int
   lh : Int
+  lh1 : Int
+  segw : List Int
+  segw1 : List Int
   spacing : Nat
-  glyphs : Nat     -- number of characters that are neither LF nor CR
+  glyphs : Nat     -- largest number of characters other than CR on one line
 deriving Repr
 
 def bitAt (wib : Nat) (bytes : Array UInt8) (X Y : Int) : Bool :=
@@ -36,33 +46,75 @@ def bitAt (wib : Nat) (bytes : Array UInt8) (X Y : Int) : Bool :=
 def allPixels (k : Case) : List (Int × Int) :=
   (List.range k.H).flatMap (fun (Y : Nat) => (List.range (k.wib * 8)).map (fun (X : Nat) => ((X : Int), (Y : Int))))
 
+/-- the line whose band `[cy + i·lh, cy + (i+1)·lh)` contains row `Y` (`n` lines) -/
+def lineIdx (cy lh : Int) (n : Nat) (Y : Int) : Option Nat :=
+  if lh ≤ 0 ∨ Y < cy then none
+  else
+    let i := ((Y - cy) / lh).toNat
+    if i < n then some i else none
+
+/-- cursor column of line `i` -/
+def lineX (cx : Int) (i : Nat) : Int := if i = 0 then cx else 0
+
+/-- `(X,Y)` lies in the box of its line -/
+def inBoxes (cx cy h lh : Int) (segw : List Int) (X Y : Int) : Bool :=
+  match lineIdx cy lh segw.length Y with
+  | none => false
+  | some i => lineX cx i ≤ X && X < lineX cx i + segw.getD i 0 + h
+
 def boxOk (k : Case) (A : Array UInt8) : Bool :=
-  (allPixels k).all (fun p =>
-    !bitAt k.wib A p.1 p.2 || (k.cx ≤ p.1 && p.1 < k.cx + k.sw + k.h && k.cy ≤ p.2 && p.2 < k.cy + k.lh))
+  (allPixels k).all (fun p => !bitAt k.wib A p.1 p.2 || inBoxes k.cx k.cy k.h k.lh k.segw p.1 p.2)
+
+def boxOk1 (k : Case) (C : Array UInt8) : Bool :=
+  (allPixels k).all (fun p => !bitAt k.wib C p.1 p.2 || inBoxes k.cx k.cy 1 k.lh1 k.segw1 p.1 p.2)
+
+/-- horizontal offset line `i` moves by when the cursor moves by `dx` -/
+def lineDx (dx : Int) (i : Nat) : Int := if i = 0 then dx else 0
 
 def translateOk (k : Case) (A B : Array UInt8) : Bool :=
   (allPixels k).all (fun p =>
-    -- B at p equals A at p - (dx,dy) (outside the canvas A reads as blank)
-    let inA := 0 ≤ p.2 - k.dy && p.2 - k.dy < k.H
-    bitAt k.wib B p.1 p.2 == (inA && bitAt k.wib A (p.1 - k.dx) (p.2 - k.dy)))
+    -- B at p equals A at the pixel it came from (outside the canvas, and outside every line band, A reads as blank)
+    let Ys := p.2 - k.dy
+    match lineIdx k.cy k.lh k.segw.length Ys with
+    | none => !bitAt k.wib B p.1 p.2
+    | some i => bitAt k.wib B p.1 p.2 == (decide (0 ≤ Ys ∧ Ys < k.H) && bitAt k.wib A (p.1 - lineDx k.dx i) Ys))
   &&
   -- nothing of A is moved out of the canvas
   (allPixels k).all (fun p =>
     !bitAt k.wib A p.1 p.2 ||
-      (0 ≤ p.1 + k.dx && p.1 + k.dx < k.wib * 8 && 0 ≤ p.2 + k.dy && p.2 + k.dy < k.H))
+      match lineIdx k.cy k.lh k.segw.length p.2 with
+      | none => true
+      | some i => 0 ≤ p.1 + lineDx k.dx i && p.1 + lineDx k.dx i < k.wib * 8 && 0 ≤ p.2 + k.dy && p.2 + k.dy < k.H)
 
 def scaleOk (k : Case) (A C : Array UInt8) : Bool :=
   (allPixels k).all (fun p =>
-    let i := p.1 - k.cx
-    let j := p.2 - k.cy
-    if i < 0 ∨ j < 0 then !bitAt k.wib A p.1 p.2
-    else bitAt k.wib A p.1 p.2 == bitAt k.wib C (k.cx + i / k.h) (k.cy + j / k.v))
+    match lineIdx k.cy k.lh k.segw.length p.2 with
+    | none => !bitAt k.wib A p.1 p.2
+    | some i =>
+      let x0 := lineX k.cx i
+      let ii := p.1 - x0
+      let jj := p.2 - (k.cy + i * k.lh)
+      if ii < 0 then !bitAt k.wib A p.1 p.2
+      else bitAt k.wib A p.1 p.2 == bitAt k.wib C (x0 + ii / k.h) (k.cy + i * k.lh1 + jj / k.v))
 
 /-- the recorded genuine finding: with extra character spacing the advance is `h·w + s`, not `h·(w+s)` -/
 def knownSpacingClass (k : Case) : Bool := k.spacing > 0 && k.h > 1 && k.glyphs ≥ 2
 
+/-- every line box with cursor `(cx,cy)` lies on the canvas ("a canvas large enough not to clip") -/
+def boxesFit (k : Case) (cx cy h lh : Int) (segw : List Int) : Bool :=
+  decide (0 ≤ cx ∧ 0 ≤ cy ∧ 0 < lh ∧ cy + segw.length * lh ≤ k.H) &&
+  (List.range segw.length).all (fun i => 0 ≤ segw.getD i 0 + h && lineX cx i + segw.getD i 0 + h ≤ k.W)
+
+/-- the three renderings are unclipped: the translation and scale clauses are demanded only then (the property
+quantifies over "cursor positions on a canvas large enough not to clip"); the box clause is demanded always -/
+def unclipped (k : Case) : Bool :=
+  boxesFit k k.cx k.cy k.h k.lh k.segw && boxesFit k (k.cx + k.dx) (k.cy + k.dy) k.h k.lh k.segw &&
+  boxesFit k k.cx k.cy 1 k.lh1 k.segw1 && decide (1 ≤ k.h ∧ 1 ≤ k.v)
+
 def check (k : Case) (A B C : Array UInt8) : Option String :=
   if !boxOk k A then some "box"
+  else if !boxOk1 k C then some "box1"
+  else if !unclipped k then none
   else if !translateOk k A B then some "translate"
   else if !scaleOk k A C then some (if knownSpacingClass k then "scale.spacing" else "scale")
   else none
